@@ -7,6 +7,10 @@ package main
 //
 //	FpgoVerif.Gen.bcqGuards : List (String × List String)        -- method ↦ ["if <cond>", "for <cond>", "set <assignment>", "return <exprs>", …]
 //
+// plus (review R3) the same for ChannelQueue's six wrappers (keys "ChannelQueue.<Method>": `if !ok`, what each select
+// branch returns) and the constructor wiring ("NewBufferedChannelQueue": the capacity-deciding fields of the literal;
+// "NewChannelQueue": the `make` expression).
+//
 // The closing theorem in Props/C07.lean pins the comparison operators (`poolCount == 0`,
 // `poolCount >= q.bufferSizeMaximum`, `q.pool.Count() > 0`) and the Count expression.
 
@@ -21,6 +25,11 @@ import (
 
 var c07Methods = map[string]bool{"Offer": true, "Put": true, "Count": true, "loadFromPool": true, "notifyWorkers": true,
 	"Take": true, "TakeWithTimeout": true, "Poll": true, "GetChannel": true}
+
+var c07ChqMethods = map[string]bool{"Put": true, "PutWithTimeout": true, "Take": true, "TakeWithTimeout": true, "Offer": true, "Poll": true}
+
+// fields of the BufferedChannelQueue literal that decide capacities / wiring (durations and the node-pool size do not)
+var c07Fields = map[string]bool{"loadWorkerCh": true, "blockingQueue": true, "pool": true, "bufferSizeMaximum": true}
 
 func c07Rename(n ast.Node, recv string) {
 	ast.Inspect(n, func(x ast.Node) bool {
@@ -42,7 +51,34 @@ func genBCQGuards(repo string) (string, error) {
 	first := true
 	for _, d := range f.Decls {
 		fd, ok := d.(*ast.FuncDecl)
-		if !ok || fd.Body == nil || fd.Recv == nil || len(fd.Recv.List) == 0 || !c07Methods[fd.Name.Name] {
+		if ok && fd.Body != nil && fd.Recv == nil && (fd.Name.Name == "NewBufferedChannelQueue" || fd.Name.Name == "NewChannelQueue") {
+			// constructor wiring: which capacity goes where (the skeleton only says that three channels are made)
+			var items []string
+			ast.Inspect(fd.Body, func(n ast.Node) bool {
+				switch x := n.(type) {
+				case *ast.KeyValueExpr:
+					if k, ok := x.Key.(*ast.Ident); ok && c07Fields[k.Name] {
+						items = append(items, "field "+k.Name+": "+c08Print(fset, x.Value))
+					}
+				case *ast.ReturnStmt:
+					if fd.Name.Name == "NewChannelQueue" && len(x.Results) == 1 {
+						items = append(items, "return "+c08Print(fset, x.Results[0]))
+					}
+				}
+				return true
+			})
+			ss := make([]string, len(items))
+			for i, s := range items {
+				ss[i] = leanStr(s)
+			}
+			if !first {
+				b.WriteString(",\n")
+			}
+			first = false
+			fmt.Fprintf(&b, "  (%s, [%s])", leanStr(fd.Name.Name), strings.Join(ss, ", "))
+			continue
+		}
+		if !ok || fd.Body == nil || fd.Recv == nil || len(fd.Recv.List) == 0 || !(c07Methods[fd.Name.Name] || c07ChqMethods[fd.Name.Name]) {
 			continue
 		}
 		t := fd.Recv.List[0].Type
@@ -52,7 +88,17 @@ func genBCQGuards(repo string) (string, error) {
 		if ix, ok := t.(*ast.IndexExpr); ok {
 			t = ix.X
 		}
-		if sel(t) != "BufferedChannelQueue" {
+		key := fd.Name.Name
+		switch sel(t) {
+		case "BufferedChannelQueue":
+		case "ChannelQueue":
+			// the channel wrappers (Put, PutWithTimeout, Take, TakeWithTimeout, Offer, Poll): `if !ok`, what each
+			// select branch returns
+			if !c07ChqMethods[fd.Name.Name] {
+				continue
+			}
+			key = "ChannelQueue." + fd.Name.Name
+		default:
 			continue
 		}
 		recv := c08RecvName(fd)
@@ -91,7 +137,7 @@ func genBCQGuards(repo string) (string, error) {
 			b.WriteString(",\n")
 		}
 		first = false
-		fmt.Fprintf(&b, "  (%s, [%s])", leanStr(fd.Name.Name), strings.Join(ss, ", "))
+		fmt.Fprintf(&b, "  (%s, [%s])", leanStr(key), strings.Join(ss, ", "))
 	}
 	b.WriteString("\n]\n\ndef bcqGuardsOf (m : String) : Option (List String) := (bcqGuards.find? (·.1 == m)).map (·.2)\n\nend FpgoVerif.Gen\n")
 	return b.String(), nil
